@@ -10,8 +10,9 @@ from vlib.props import grammar_texts
 ID = 'C03'
 LEVEL = 'exploration'
 DECIDING = ['tree_wellformed', 'navigation']
-RULE = ('inputs: token soup, bracket/keyword soup, char soup, mutated corpus '
-        'files, grammar scripts; oracle T1 walks every returned tree at the '
+RULE = ('inputs: token soup, bracket/keyword soup, chain soup (operands joined '
+        'by repeated := :: . = + AS , AND ... behind 0-6 other tokens), char '
+        'soup, mutated corpus files, grammar scripts; oracle T1 walks every returned tree at the '
         'quiescent point after parse() (parent pointers, non-empty groups, '
         'no node twice, cached value == text, leaves == the lexer tokens '
         'recorded during the same call, only */operator re-typed); T2 '
